@@ -457,7 +457,7 @@ Section Main.
     intros v ty chi G S cont t st s st' H Hg Hty Htd Hrk Hfv Hbd HS HU HK Hf. rewrite wc_unfold in H.
     apply wc_var_inv in H. destruct H as [ty0 [-> [-> ->]]].
     apply tyo_var in Hty. destruct Hty as [ty1 [E ->]]. injection E as <-.
-    rewrite tg_var in Hg. apply andb_prop in Hg. destruct Hg as [Hv _].
+    rewrite tg_var in Hg. pose proof Hg as Hv.
     apply var_ok_look in Hv. destruct Hv as [ty1 [E Hv]]. injection E as <-.
     split.
     - apply cs_cut. split; [exact Htd|]. split; [apply ct_var; repeat split; exact Hv | eapply KT_here; exact HK].
@@ -469,7 +469,7 @@ Section Main.
     intros v ty chi G t st c st' H Hg Hty Htd Hrk Hfv Hbd HU Hf. rewrite cmp_unfold in H.
     apply cmp_var_inv in H. destruct H as [ty0 [-> [-> ->]]].
     apply tyo_var in Hty. destruct Hty as [ty1 [E ->]]. injection E as <-.
-    rewrite tg_var in Hg. apply andb_prop in Hg. destruct Hg as [Hv _].
+    rewrite tg_var in Hg. pose proof Hg as Hv.
     apply var_ok_look in Hv. destruct Hv as [ty1 [E Hv]]. injection E as <-.
     split; [apply ct_var; repeat split; exact Hv|]. split; [apply tyd_fv_var; exact Htd | apply lifted_ok_refl].
   Qed.
@@ -514,7 +514,7 @@ Section Main.
     apply wc_ifc_inv in H.
     destruct H as [cont1 [st0 [a' [sta [b' [stb [t' [stt [e' [Hsh [Ea [Eb [Et [Ee ->]]]]]]]]]]]]]].
     rewrite tg_ifc in Hg.
-    apply andb_prop in Hg. destruct Hg as [Hg Han]. apply andb_prop in Hg. destruct Hg as [Hg Hs2].
+    apply andb_prop in Hg. destruct Hg as [Hg Hs2].
     apply andb_prop in Hg. destruct Hg as [Hg Hs1]. apply andb_prop in Hg. destruct Hg as [Hg Hg2].
     apply andb_prop in Hg. destruct Hg as [Hg Hg1]. apply andb_prop in Hg. destruct Hg as [Hg Hgb].
     apply andb_prop in Hg. destruct Hg as [Hga Hha]. apply has_ty_tyo in Hha.
